@@ -19,8 +19,21 @@ pub fn pack_fields(fields: &Value) -> Vec<u8> {
     for f in fields.as_array().unwrap() {
         let v = f[0].as_u64().unwrap();
         let n = f[1].as_u64().unwrap() as u32;
-        let msb = f[2].as_u64().unwrap() != 0;
         let rep = f.get(3).and_then(|x| x.as_u64()).unwrap_or(1);
+        if f[2].as_u64().unwrap() == 2 {
+            // a run of bytes in closed form (Gen_Deflate!Varied); always byte aligned
+            while nacc >= 8 {
+                out.push(acc as u8);
+                acc >>= 8;
+                nacc -= 8;
+            }
+            assert_eq!(nacc, 0);
+            for i in 1..=rep {
+                out.push(varied(v, i));
+            }
+            continue;
+        }
+        let msb = f[2].as_u64().unwrap() != 0;
         if n == 8 && !msb && nacc % 8 == 0 && rep > 8 {
             while nacc >= 8 {
                 out.push(acc as u8);
@@ -47,6 +60,11 @@ pub fn pack_fields(fields: &Value) -> Vec<u8> {
         out.push(acc as u8);
     }
     out
+}
+
+/// Gen_Deflate!Varied
+pub fn varied(seed: u64, i: u64) -> u8 {
+    ((((i % 251) * (i % 241)) + (i / 7) * 13 + seed) % 256) as u8
 }
 
 #[derive(Clone, Debug, PartialEq)]
@@ -90,6 +108,14 @@ pub fn expectation(case: &Value) -> Expect {
             dynhdr: None,
         };
         for d in b["data"].as_array().unwrap() {
+            if d.as_array().unwrap().len() == 3 {
+                let seed = d[0].as_u64().unwrap();
+                for i in 1..=d[1].as_u64().unwrap() {
+                    eb.stored.push(varied(seed, i));
+                    plain.push(varied(seed, i));
+                }
+                continue;
+            }
             let v = d[0].as_u64().unwrap() as u8;
             for _ in 0..d[1].as_u64().unwrap() {
                 eb.stored.push(v);
